@@ -15,6 +15,8 @@ pub mod d9;
 #[cfg(kani)]
 pub mod w;
 #[cfg(kani)]
+pub mod x;
+#[cfg(kani)]
 pub mod s10;
 #[cfg(kani)]
 pub mod d10;
